@@ -39,6 +39,54 @@ unsafe impl<'a, M: ZooMsg + ?Sized> Emplacer<M> for ValEmp<'a, M> {
 }
 
 // ---------------------------------------------------------------------------------------------
+// validity of what a guard hands out, checked on raw bytes while reading (C10: "any message it
+// hands out is a valid value"): strings are UTF-8, Bool bytes are 0/1, C-like tags in range,
+// len <= capacity.  A finding is parked in a thread-local and picked up by `take_invalid`.
+
+thread_local! {
+    static INVALID: core::cell::Cell<Option<&'static str>> = const { core::cell::Cell::new(None) };
+}
+pub fn note_invalid(what: &'static str) {
+    INVALID.with(|c| {
+        if c.get().is_none() {
+            c.set(Some(what))
+        }
+    });
+}
+pub fn take_invalid() -> Option<&'static str> {
+    INVALID.with(|c| c.take())
+}
+fn rd_bool(b: &Bool) -> Val {
+    let raw = unsafe { *(b as *const Bool as *const u8) };
+    if raw > 1 {
+        note_invalid("Bool byte is neither 0 nor 1");
+        return Val::B(false);
+    }
+    Val::B(raw == 1)
+}
+fn rd_str<L: Flat + string::Length>(s: &FlatString<L>) -> Val {
+    if s.len() > s.capacity() {
+        note_invalid("string len > capacity");
+        return Val::S(String::new());
+    }
+    let b: &[u8] = s.as_vec().as_slice();
+    match core::str::from_utf8(b) {
+        Ok(x) => Val::S(x.to_string()),
+        Err(_) => {
+            note_invalid("string is not valid UTF-8");
+            Val::S(String::from_utf8_lossy(b).into_owned())
+        }
+    }
+}
+fn rd_vec<T: Flat + Sized, L: Flat + vec::Length>(v: &FlatVec<T, L>, f: impl Fn(&T) -> Val) -> Val {
+    if v.len() > v.capacity() {
+        note_invalid("vector len > capacity");
+        return Val::L(vec![]);
+    }
+    Val::L(v.iter().map(f).collect())
+}
+
+// ---------------------------------------------------------------------------------------------
 // generic builder ops on containers
 
 fn tweak_vec<T: Flat + Sized, L: Flat + vec::Length>(v: &mut FlatVec<T, L>, g: &mut Gen, mut mk: impl FnMut(&mut Gen) -> T) {
@@ -152,7 +200,7 @@ impl ZooMsg for TestMsg {
         match self.as_ref() {
             TestMsgRef::A => Val::V(0, vec![]),
             TestMsgRef::B(x) => Val::V(1, vec![Val::I(*x as i128)]),
-            TestMsgRef::C(v) => Val::V(2, vec![Val::L(v.iter().map(|x| Val::I(*x as i128)).collect())]),
+            TestMsgRef::C(v) => Val::V(2, vec![rd_vec(v, |x| Val::I(*x as i128))]),
         }
     }
     fn tweak(&mut self, g: &mut Gen) {
@@ -187,7 +235,7 @@ impl ZooMsg for PadTail {
         )
     }
     fn read(&self) -> Val {
-        Val::R(vec![Val::I(self.a as i128), Val::L(self.v.iter().map(|x| Val::I(*x as i128)).collect())])
+        Val::R(vec![Val::I(self.a as i128), rd_vec(&self.v, |x| Val::I(*x as i128))])
     }
     fn tweak(&mut self, g: &mut Gen) {
         if g.chance(1, 3) {
@@ -229,7 +277,7 @@ impl ZooMsg for Wide {
         Val::R(vec![
             Val::I(self.a as i128),
             Val::I(self.b as i128),
-            Val::L(self.c.iter().map(|x| Val::I(*x as i128)).collect()),
+            rd_vec(&self.c, |x| Val::I(*x as i128)),
         ])
     }
     fn tweak(&mut self, g: &mut Gen) {
@@ -274,8 +322,8 @@ impl ZooMsg for TagStr {
     fn read(&self) -> Val {
         match self.as_ref() {
             TagStrRef::N => Val::V(0, vec![]),
-            TagStrRef::F(b, x) => Val::V(1, vec![Val::B(bool::from(*b)), Val::I(*x as i128)]),
-            TagStrRef::S { k, s } => Val::V(2, vec![Val::I(*k as i128), Val::S(s.as_str().to_string())]),
+            TagStrRef::F(b, x) => Val::V(1, vec![rd_bool(b), Val::I(*x as i128)]),
+            TagStrRef::S { k, s } => Val::V(2, vec![Val::I(*k as i128), rd_str(s)]),
         }
     }
     fn tweak(&mut self, g: &mut Gen) {
@@ -309,7 +357,7 @@ impl ZooMsg for VecU8 {
         Self::new_in_place(bytes, vec::FromIterator(v.list().iter().map(|x| x.int() as u8)))
     }
     fn read(&self) -> Val {
-        Val::L(self.iter().map(|x| Val::I(*x as i128)).collect())
+        rd_vec(self, |x| Val::I(*x as i128))
     }
     fn tweak(&mut self, g: &mut Gen) {
         tweak_vec(self, g, |g| g.int(8, false) as u8);
@@ -330,7 +378,7 @@ impl ZooMsg for VecA3 {
         )
     }
     fn read(&self) -> Val {
-        Val::L(self.iter().map(|a| Val::L(a.iter().map(|x| Val::I(*x as i128)).collect())).collect())
+        rd_vec(self, |a| Val::L(a.iter().map(|x| Val::I(*x as i128)).collect()))
     }
     fn tweak(&mut self, g: &mut Gen) {
         tweak_vec(self, g, |g| [g.int(8, false) as u8, 7, g.int(8, false) as u8]);
@@ -348,7 +396,7 @@ impl ZooMsg for Str32 {
         Self::new_in_place(bytes, string::FromStr(v.str()))
     }
     fn read(&self) -> Val {
-        Val::S(self.as_str().to_string())
+        rd_str(self)
     }
     fn tweak(&mut self, g: &mut Gen) {
         tweak_str(self, g);
@@ -384,7 +432,7 @@ impl ZooMsg for VecI32 {
         Self::new_in_place(bytes, vec::FromIterator(v.list().iter().map(|x| x.int() as i32)))
     }
     fn read(&self) -> Val {
-        Val::L(self.iter().map(|x| Val::I(*x as i128)).collect())
+        rd_vec(self, |x| Val::I(*x as i128))
     }
     fn tweak(&mut self, g: &mut Gen) {
         tweak_vec(self, g, |g| g.int(32, true) as i32);
@@ -402,7 +450,7 @@ impl ZooMsg for Str8 {
         Self::new_in_place(bytes, string::FromStr(v.str()))
     }
     fn read(&self) -> Val {
-        Val::S(self.as_str().to_string())
+        rd_str(self)
     }
     fn tweak(&mut self, g: &mut Gen) {
         tweak_str(self, g);
@@ -537,7 +585,7 @@ impl ZooMsg for PStruct {
     fn read(&self) -> Val {
         Val::R(vec![
             Val::I(u16::from(self.a) as i128),
-            Val::L(self.b.iter().map(|x| Val::I(u32::from(*x) as i128)).collect()),
+            rd_vec(&self.b, |x| Val::I(u32::from(*x) as i128)),
         ])
     }
     fn tweak(&mut self, g: &mut Gen) {
@@ -578,7 +626,7 @@ impl ZooMsg for PEnum {
     fn read(&self) -> Val {
         match self.as_ref() {
             PEnumRef::A => Val::V(0, vec![]),
-            PEnumRef::B(f, b) => Val::V(1, vec![Val::F(f32::from(*f).to_bits() as u64), Val::B(bool::from(*b))]),
+            PEnumRef::B(f, b) => Val::V(1, vec![Val::F(f32::from(*f).to_bits() as u64), rd_bool(b)]),
             PEnumRef::C(s) => Val::V(2, vec![s.read()]),
         }
     }
@@ -632,8 +680,13 @@ impl ZooMsg for Fixed {
         )
     }
     fn read(&self) -> Val {
+        let raw_mode = unsafe { *(&self.mode as *const Mode as *const u8) };
+        if raw_mode > 2 {
+            note_invalid("C-like enum tag out of range");
+            return Val::R(vec![]);
+        }
         Val::R(vec![
-            Val::B(bool::from(self.flag)),
+            rd_bool(&self.flag),
             Val::T(self.mode as u32),
             Val::I(self.x as i128),
             Val::F(self.y.to_bits()),
@@ -674,7 +727,7 @@ impl ZooMsg for FixedE {
         match self {
             FixedE::A => Val::V(0, vec![]),
             FixedE::B(x, y) => Val::V(1, vec![Val::I(*x as i128), Val::I(*y as i128)]),
-            FixedE::C { a, b } => Val::V(2, vec![Val::B(bool::from(*a)), Val::I(*b as i128)]),
+            FixedE::C { a, b } => Val::V(2, vec![rd_bool(a), Val::I(*b as i128)]),
         }
     }
     fn tweak(&mut self, g: &mut Gen) {
@@ -731,8 +784,114 @@ impl ZooMsg for Nest {
 }
 
 // ---------------------------------------------------------------------------------------------
+// T17: vector of content-constrained items
 
-pub const N_TYPES: usize = 16;
+pub type BoolVec = FlatVec<Bool, u8>;
+impl ZooMsg for BoolVec {
+    const NAME: &'static str = "FlatVec<Bool,u8>";
+    fn gen(g: &mut Gen) -> Val {
+        let n = g.len();
+        Val::L((0..n).map(|_| Val::B(g.boolean())).collect())
+    }
+    fn emplace_val<'b>(bytes: &'b mut [u8], v: &Val) -> Result<&'b mut Self, Error> {
+        Self::new_in_place(bytes, vec::FromIterator(v.list().iter().map(|x| Bool::from(x.boolean()))))
+    }
+    fn read(&self) -> Val {
+        rd_vec(self, rd_bool)
+    }
+    fn tweak(&mut self, g: &mut Gen) {
+        tweak_vec(self, g, |g| Bool::from(g.boolean()));
+    }
+}
+
+// T18: padding in front of a middle field, low-aligned last field; sized and unsized variants
+
+#[flat(sized = false, default = true)]
+pub enum Pad3 {
+    #[default]
+    Z,
+    S(u8, u32, u8),
+    T { a: u8, b: u64, c: Bool, v: FlatVec<u8, u16> },
+    U(u16, Mode, u8),
+}
+
+impl ZooMsg for Pad3 {
+    const NAME: &'static str = "Pad3";
+    fn gen(g: &mut Gen) -> Val {
+        match g.weighted(&[1, 3, 3, 2]) {
+            0 => Val::V(0, vec![]),
+            1 => Val::V(1, vec![Val::I(g.int(8, false)), Val::I(g.int(32, false)), Val::I(g.int(8, false))]),
+            2 => {
+                let a = g.int(8, false);
+                let b = g.int(64, false);
+                let c = g.boolean();
+                let n = g.len();
+                Val::V(2, vec![Val::I(a), Val::I(b), Val::B(c), Val::L((0..n).map(|_| Val::I(g.int(8, false))).collect())])
+            }
+            _ => Val::V(3, vec![Val::I(g.int(16, false)), Val::T(g.pick(3)), Val::I(g.int(8, false))]),
+        }
+    }
+    fn emplace_val<'b>(bytes: &'b mut [u8], v: &Val) -> Result<&'b mut Self, Error> {
+        match v.tag() {
+            0 => Self::new_in_place(bytes, Pad3InitZ),
+            1 => Self::new_in_place(bytes, Pad3InitS(v.field(0).int() as u8, v.field(1).int() as u32, v.field(2).int() as u8)),
+            2 => Self::new_in_place(
+                bytes,
+                Pad3InitT {
+                    a: v.field(0).int() as u8,
+                    b: v.field(1).int() as u64,
+                    c: Bool::from(v.field(2).boolean()),
+                    v: vec::FromIterator(v.field(3).list().iter().map(|x| x.int() as u8)),
+                },
+            ),
+            _ => Self::new_in_place(
+                bytes,
+                Pad3InitU(
+                    v.field(0).int() as u16,
+                    match v.field(1).tag() {
+                        0 => Mode::X,
+                        1 => Mode::Y,
+                        _ => Mode::Z,
+                    },
+                    v.field(2).int() as u8,
+                ),
+            ),
+        }
+    }
+    fn read(&self) -> Val {
+        match self.as_ref() {
+            Pad3Ref::Z => Val::V(0, vec![]),
+            Pad3Ref::S(a, b, c) => Val::V(1, vec![Val::I(*a as i128), Val::I(*b as i128), Val::I(*c as i128)]),
+            Pad3Ref::T { a, b, c, v } => Val::V(2, vec![Val::I(*a as i128), Val::I(*b as i128), rd_bool(c), rd_vec(v, |x| Val::I(*x as i128))]),
+            Pad3Ref::U(a, m, c) => {
+                let raw = unsafe { *(m as *const Mode as *const u8) };
+                if raw > 2 {
+                    note_invalid("C-like enum tag out of range");
+                    return Val::V(3, vec![]);
+                }
+                Val::V(3, vec![Val::I(*a as i128), Val::T(*m as u32), Val::I(*c as i128)])
+            }
+        }
+    }
+    fn tweak(&mut self, g: &mut Gen) {
+        match self.as_mut() {
+            Pad3Mut::Z => {}
+            Pad3Mut::S(a, _, c) => {
+                *a = g.int(8, false) as u8;
+                *c = g.int(8, false) as u8;
+            }
+            Pad3Mut::T { c, v, .. } => {
+                *c = !*c;
+                tweak_vec(v, g, |g| g.int(8, false) as u8);
+            }
+            Pad3Mut::U(a, _, _) => *a = g.int(16, false) as u16,
+        }
+    }
+}
+
+// ---------------------------------------------------------------------------------------------
+
+pub const N_TYPES: usize = 19;
 pub const TYPE_NAMES: [&str; N_TYPES] = [
     "TestMsg",
     "PadTail",
@@ -750,6 +909,9 @@ pub const TYPE_NAMES: [&str; N_TYPES] = [
     "Fixed",
     "FixedE",
     "Nest",
+    "FlexVec<FlatString<u8>,u16>",
+    "FlatVec<Bool,u8>",
+    "Pad3",
 ];
 
 /// Dispatch a generic call over the zoo by index.
@@ -772,7 +934,10 @@ macro_rules! with_zoo_type {
             12 => $f::<$crate::zoo::PEnum>($($args),*),
             13 => $f::<$crate::zoo::Fixed>($($args),*),
             14 => $f::<$crate::zoo::FixedE>($($args),*),
-            _ => $f::<$crate::zoo::Nest>($($args),*),
+            15 => $f::<$crate::zoo::Nest>($($args),*),
+            16 => $f::<$crate::zoo::FlexS>($($args),*),
+            17 => $f::<$crate::zoo::BoolVec>($($args),*),
+            _ => $f::<$crate::zoo::Pad3>($($args),*),
         }
     };
 }
